@@ -262,7 +262,46 @@ def r05_4(chk):
     chk.floor("R05.4", 6, "table, 4 options, returns")
 
 
+EXP_STATE_ALLOWED = {("TaylorExponentiator", "q"): "series-length hint only: the loop still iterates to convergence, so the result does not depend on it; not selectable through ExpDefn"}
+
+
+def r05_5(chk):
+    chk.rule("R05.5", "P(t) is a function of t alone: in every exponentiator class, __call__ and the self-methods it calls assign no instance attribute (state computed in one call and reused in the next makes the result depend on the order in which branch lengths are evaluated)")
+    m = chk.repo.module("maths/matrix_exponentiation.py")
+    base = m.cls("_Exponentiator")
+    n = 0
+    for ci in chk.repo.subclasses_of(base, strict=True):
+        r = ci.resolve("__call__")
+        if not r or not isinstance(r[1], ast.FunctionDef):
+            continue
+        n += 1
+        seen, todo, writes = set(), [r[1]], []
+        while todo:
+            fn = todo.pop()
+            if id(fn) in seen:
+                continue
+            seen.add(id(fn))
+            for x in walk_no_nested(fn):
+                if isinstance(x, ast.Attribute) and isinstance(x.ctx, (ast.Store, ast.Del)) and isinstance(x.value, ast.Name) and x.value.id == "self":
+                    writes.append((fn, x))
+                if isinstance(x, ast.Subscript) and isinstance(x.ctx, (ast.Store, ast.Del)) and isinstance(x.value, ast.Attribute) and norm(x.value.value) == "self":
+                    writes.append((fn, x.value))
+                if isinstance(x, ast.Call) and isinstance(x.func, ast.Attribute) and isinstance(x.func.value, ast.Name) and x.func.value.id == "self":
+                    rr = ci.resolve(x.func.attr)
+                    if rr and isinstance(rr[1], ast.FunctionDef) and rr[1].name != "__init__":
+                        todo.append(rr[1])
+        bad = [(fn, a) for fn, a in writes if (ci.name, a.attr) not in EXP_STATE_ALLOWED]
+        k = key(ci.module, f"{ci.name}.__call__", "stateless evaluation")
+        if bad:
+            fn, a = bad[0]
+            chk.violation("R05.5", key(ci.module, f"{ci.name}.{fn.name}", f"stores self.{a.attr} during evaluation"), ci.module.loc(a), f"`self.{a.attr}` is assigned while evaluating P(t): a value worked out for one branch length is reused for the next, so P(t) depends on the call history and the back-ends stop agreeing")
+        else:
+            chk.ok("R05.5", k, ci.module.loc(r[1]), "no instance state written during evaluation" + (" (allow-listed: " + ", ".join(a.attr for _, a in writes) + ")" if writes else ""))
+    chk.floor("R05.5", 3, "Eigen, Taylor, Pade exponentiators")
+
+
 def run(chk):
+    r05_5(chk)
     r05_1(chk)
     r05_2(chk)
     r05_3(chk)
